@@ -742,6 +742,13 @@ def gen_bankrupt_plan(rng, tier="quick"):
     if rng.random() < 0.3:
         root["algos"].insert(1, chaos_spec(rng, ndates, flows=False))
     cfg = {"integer": rng.random() < 0.5, "comm": commod.gen(rng, feedmod.min_unit(fspec["prices"])) if rng.random() < 0.5 else None, "capital": rng.choice([1e5, 1e6]), "fi": False, "obs_price": False, "obs_eod": rng.random() < 0.5, "profile": "bankrupt", "outcome": outcome}
+    if rng.random() < 0.15:
+        # started without capital and funded later by a flow: worth exactly zero until then (not negative: never flagged)
+        cap = cfg["capital"]
+        cfg["capital"] = 0.0
+        k = rng.randint(0, max(0, d - 1))
+        root["algos"] = [{"a": "RunOnDate", "dates": [dates[k]]}, {"a": "CapitalFlow", "args": [cap]}] + [a for a in root["algos"] if a.get("a") not in ("RunOnce", "RunOnDate", "RunMonthly")]
+        fired["zero_capital_start"] = 1
     return {"driver": "engine", "cfg": cfg, "tree": root, "feed": fspec, "fired": fired}
 
 
